@@ -186,7 +186,7 @@ class Ctx:
         return d
 
     def tlc(self, module, cfg, workers=None, heap="2g", timeout=900, simulate=None, depth=None,
-            extra=None, cwd_files=None, dump_json=False, label=None, deadlock=None, coverage=False):
+            extra=None, cwd_files=None, dump_json=False, dump_path=None, label=None, deadlock=None, coverage=False):
         """Run TLC.  Returns dict(ok, generated, distinct, violated, out, lines(json objects printed))."""
         d = self.spec_copy()
         if cwd_files:
@@ -225,11 +225,19 @@ class Ctx:
         errors = []
         jl = []
         tail = []
+        ndump = 0
+        dumpf = open(dump_path, "a") if dump_path else None
         with open(outp, errors="replace") as f:
             for line in f:
-                if dump_json and line.startswith('"'):
+                if (dump_json or dumpf) and line.startswith('"'):
                     try:
-                        jl.append(json.loads(json.loads(line)))
+                        inner = json.loads(line)
+                        if dumpf:
+                            dumpf.write(inner)
+                            dumpf.write("\n")
+                            ndump += 1
+                        else:
+                            jl.append(json.loads(inner))
                         continue
                     except Exception:
                         raise Infra("unparsable JSON line from TLC: " + line[:200])
@@ -249,6 +257,8 @@ class Ctx:
                     violated.append("temporal")
                 if line.startswith("Error:") and "violated" not in line:
                     errors.append(line.strip())
+        if dumpf:
+            dumpf.close()
         txt = "".join(tail)
         ok = ("Model checking completed. No error has been found." in txt) or (simulate and rc == 0 and not violated and not errors)
         run = dict(module=module, cfg=cfg, generated=gen, distinct=dist, wall_s=round(wall, 1), ok=bool(ok),
@@ -259,6 +269,7 @@ class Ctx:
         res = dict(run)
         res["out"] = txt
         res["lines"] = jl
+        res["dumped"] = ndump
         res["errors"] = errors
         res["rc"] = rc
         res["outfile"] = outp
